@@ -322,6 +322,26 @@ def bounded(rep, tier):
             try: call(); fails.append(('wraps', None, f'wraps_argslens_leak: parameter {label} of a function that borrowed another function\'s __dict__ through functools.wraps() is unchecked'))
             except BeartypeCallHintViolation: pass
     except Exception as e: fails.append(('wraps', None, f'wraps_harness: {type(e).__name__}: {e}'[:200]))
+    # @no_type_check on a BASE class is not inherited by the classes derived from it (typing marks the base's own functions; the class attribute
+    # __no_type_check__ it also sets is visible on subclasses, which define their own, unmarked members)
+    try:
+        import typing as _t
+        @_t.no_type_check
+        class NtcBase:
+            def base_m(self, x: int) -> int: return x
+        class NtcSub(NtcBase):
+            def m(self, x: int) -> int: return x
+            @staticmethod
+            def s(x: int) -> int: return x
+        beartype(NtcSub)
+        for label, call in (('method', lambda: NtcSub().m('bad')), ('staticmethod', lambda: NtcSub.s('bad'))):
+            cases += 1
+            try: call(); fails.append(('ntc_inherited', None, f'ntc_inherited {label}: a class derived from a @no_type_check class was left undecorated (its own {label} accepts a bad argument)'))
+            except BeartypeCallHintViolation: pass
+        cases += 1
+        try: NtcSub().base_m('anything')
+        except BeartypeCallHintViolation: fails.append(('ntc_inherited', None, 'ntc_inherited base: the inherited @no_type_check member was decorated'))
+    except Exception as e: fails.append(('ntc_inherited', None, f'ntc_harness: {type(e).__name__}: {e}'[:200]))
     # a class that is merely REFERENCED by a decorated class (here through a staticmethod / classmethod descriptor) is not nested in it
     try:
         class ExtS:
@@ -384,6 +404,16 @@ def decorcore_part(rep):
         outs = ex.run_function(node, St(), (VObj(OBJ),), kwargs, fobj)
         n = 0
         for i, (s, v) in enumerate(outs):
+            if qual == '_beartype_object_fatal':
+                # dispatch is total: a class ALWAYS reaches the class decorator and anything else the callable decorator - no object is handed back
+                # undecorated by the dispatcher itself (the documented no-op cases are decided further down, per member)
+                tags = [e[1] for e in s.events if e[0] == 'callee']
+                isclass = M.inst(OBJ, uni.const(type))
+                pr_ = discharge.Prover(uni.axioms())
+                r_ = pr_.prove(list(s.pc), z3.BoolVal(tags == ['type']) == isclass) if len(tags) == 1 else None
+                ok_ret = isinstance(v, VObj) and len(tags) == 1 and str(v.t).startswith(tags[0])
+                rep.add(f'C13.decorcore.{qual}.post.dispatch_is_total.path{i}', (r_.status if (r_ and ok_ret) else 'refuted'), backend='z3+structural',
+                        where=f'decorators reached on this path: {tags}; returned {v}: a class goes to beartype_type, everything else to beartype_nontype, and the result of that decorator is what is returned')
             for e in s.events:
                 if e[0] != 'callee': continue
                 n += 1
